@@ -168,6 +168,12 @@ def check_custom(case):
     P = dict(case["params"])
     names = case["annotators"]
     smp = pa.StatisticalContinuumSampler()
+    if case.get("pre_init"):
+        # history: the same sampler object was initialised before, with other parameters and explicit weights
+        k0 = len(P["categories"])
+        w0 = [0.9] + [0.1 / (k0 - 1)] * (k0 - 1) if k0 > 1 else [1.0]
+        smp.init_sampling_custom(["zz", "yy"], 3.0, 1.0, 2.0, 1.0, 5.0, 1.0, list(P["categories"]), w0)
+        _ = smp.sample_from_continuum
     lib_call("init_sampling_custom", smp.init_sampling_custom, list(names), P["n_mu"], P["n_sd"], P["g_mu"], P["g_sd"], P["d_mu"], P["d_sd"],
              list(P["categories"]), None if P["weights"] is None else list(P["weights"]))
     np.random.seed(case["seed"])
@@ -177,7 +183,7 @@ def check_custom(case):
     cat_index = {c: i for i, c in enumerate(P["categories"])}
     allowed = set(P["categories"])
     lib = draw_library(smp, M, sorted(names), cat_index, prec, allowed)
-    classes = [f"k={len(names)}", "weights=None" if P["weights"] is None else "weights=given"]
+    classes = [f"k={len(names)}", "weights=None" if P["weights"] is None else "weights=given"] + (["sampler-initialised-before"] if case.get("pre_init") else [])
     decide(lib, [P], sorted(names), M, prec, case["sim_seed"], classes, "custom")
     w = P["weights"]
     unequal = w is not None and len({round(x, 6) for x in w}) > 1
@@ -271,7 +277,8 @@ def custom_cases(draw):
         # durations of the order of pyannote's segment precision (1e-6): the redraw-below-precision rule matters here
         params["d_mu"], params["d_sd"] = draw(st.sampled_from([0.0, 1e-6, 2e-6])), draw(st.sampled_from([1e-6, 2e-6, 5e-6]))
         params["g_mu"], params["g_sd"] = draw(st.sampled_from([1e-5, 1.0])), draw(st.sampled_from([0.0, 1e-6]))
-    return {"annotators": list(names), "params": params, "seed": draw(st.integers(0, 2 ** 31 - 1)), "sim_seed": draw(st.integers(0, 2 ** 31 - 1))}
+    return {"annotators": list(names), "params": params, "seed": draw(st.integers(0, 2 ** 31 - 1)), "sim_seed": draw(st.integers(0, 2 ** 31 - 1)),
+            "pre_init": draw(st.booleans())}
 
 
 @st.composite
